@@ -420,7 +420,15 @@ impl IncrementalEngine {
         for fact_type in fact_types {
             let facts_of_type = self.working_memory.get_by_type(&fact_type);
 
-            for rule in self.rules.iter() {
+            // Only rules that depend on this fact type can match its facts
+            // (same filter as propagate_changes_for_type)
+            let affected_rules = self.dependencies.get_affected_rules(&fact_type);
+
+            for (rule_idx, rule) in self.rules.iter().enumerate() {
+                if !affected_rules.contains(&rule_idx) {
+                    continue;
+                }
+
                 // Skip if rule has no-loop and already fired
                 if rule.no_loop && self.agenda.has_fired(&rule.name) {
                     continue;
